@@ -159,6 +159,57 @@ def sphKernel (alpha beta rhat : α) : Kernel (List α) (List α) α α :=
 
 end
 
+/-! ### Ellipsoid ART  (Anagnostopoulos & Georgiopoulos 2001).
+A weight is `centroid ++ major_axis ++ [radius]` (`2·dim + 1` numbers). -/
+
+section
+variable {α : Type} [Add α] [Sub α] [Mul α] [Div α] [Min α] [Max α] [Zero α] [One α]
+  [LT α] [LE α] [DecidableRel (α := α) (· < ·)] [DecidableRel (α := α) (· ≤ ·)] [DecidableEq α]
+  [Transc α]
+
+def ellCentre (dim : Nat) (w : List α) : List α := w.take dim
+def ellAxis (dim : Nat) (w : List α) : List α := (w.drop dim).dropLast
+def ellRadius (w : List α) : α := w.getLastD 0
+
+/-- `1/mu · sqrt(‖x−c‖² − (1−mu²)(axis·(x−c))²)`, the plain Euclidean distance while the category has
+no direction yet (`major_axis` all zero) -/
+def ellDist (mu : α) (x c axis : List α) : α :=
+  if axis.any (fun t => t != 0) then
+    1 / mu * Transc.sqrt (l2sq (vsub x c) - (1 - mu * mu) * (dot axis (vsub x c) * dot axis (vsub x c)))
+  else Transc.sqrt (l2sq (vsub x c))
+
+/-- `T = (r̂ − R − max(R, dist)) / (r̂ − 2R + alpha)` -/
+def ellChoice (alpha mu rhat : α) (dim : Nat) (x w : List α) : α :=
+  let R := ellRadius w
+  let d := ellDist mu x (ellCentre dim w) (ellAxis dim w)
+  (rhat - R - max R d) / (rhat - (1 + 1) * R + alpha)
+
+/-- `M = 1 − (R + max(R, dist)) / r̂` -/
+def ellMatch (mu rhat : α) (dim : Nat) (x w : List α) : α :=
+  let R := ellRadius w
+  let d := ellDist mu x (ellCentre dim w) (ellAxis dim w)
+  1 - (R + max R d) / rhat
+
+/-- radius and centre move like the hypersphere's; the major axis is the unit vector from the new
+centre to the sample once the category has a positive radius (kept when the sample sits on the new
+centre — repaired 0/0, finding F02) -/
+def ellUpdate (beta mu : α) (dim : Nat) (x w : List α) : List α :=
+  let c := ellCentre dim w
+  let axis := ellAxis dim w
+  let R := ellRadius w
+  let d := ellDist mu x c axis
+  let R' := R + beta / (1 + 1) * (max R d - R)
+  let f := if 0 < d then 1 - min R d / d else (0 : α)
+  let c' := vadd c (smul f (smul (beta / (1 + 1)) (vsub x c)))
+  let off := vsub x c'
+  let nrm := Transc.sqrt (l2sq off)
+  let axis' := if ¬ (R = 0) ∧ 0 < nrm then off.map (· / nrm) else axis
+  c' ++ axis' ++ [R']
+
+def ellNew (x : List α) : List α := x ++ x.map (fun _ => (0 : α)) ++ [0]
+
+end
+
 /-! ### Gaussian / Bayesian ART: running moments (the part of the rule that is
 rational).  A Gaussian weight is `mean ++ sigma ++ inv_sig ++ [sqrt_det, n]`;
 only `mean` and `n` are modelled exactly. -/
